@@ -362,6 +362,22 @@ def catalogue():
     from sklearn.exceptions import NotFittedError
     e_ = xy_est(lambda s: KernelPCovR(mixing=0.5, n_components=2, kernel="linear", fit_inverse_transform=(s == "small")), ["transform", "predict"])
     cat["KernelPCovR[inverse-transform switch]"] = e_[:3] + (e_[3] + [("inverse_transform", kp_inverse)],)
+    # further switches (behaviour of the follow-up calls only; selectors and clustering: the selection / labels themselves)
+    from skmatter.neighbors import SparseKDE as _KDE
+    from skmatter.clustering import QuickShift as _QS
+    _kb = make_data(np.random.default_rng(77), "A")
+    cat["SparseKDE[fpoints/fspread switch]"] = ((lambda s: _KDE(_kb["X"][:, :2].copy(), _kb["w"].copy(), fpoints=0.3) if s == "small"
+                                                 else _KDE(_kb["X"][:, :2].copy(), _kb["w"].copy(), fspread=0.6)),) + cat["SparseKDE"][1:]
+    cat["QuickShift[cut/gabriel switch*]"] = ((lambda s: _QS(gabriel_shell=1) if s == "small" else _QS(dist_cutoff_sq=1.5)),) + cat["QuickShift[gabriel]"][1:]
+    cat["Ridge2FoldCV[method switch]"] = xy_est(lambda s: Ridge2FoldCV(alphas=[1e-3, 1e-1, 0.5], random_state=0, regularization_method="tikhonov" if s == "small" else "cutoff",
+                                                                        alpha_type="absolute" if s == "small" else "relative"), ["predict"])
+    cat["PCovR[solver switch]"] = xy_est(lambda s: PCovR(mixing=0.5, n_components=2, svd_solver="full" if s == "small" else "arpack", random_state=0), ["transform", "predict", "score"])
+    cat["PCovR[regressor switch]"] = xy_est(lambda s: PCovR(mixing=0.5, n_components=2, regressor=None if s == "small" else _Ridge(alpha=0.1, fit_intercept=False)), ["transform", "predict"])
+    cat["KernelPCovR[kernel switch]"] = xy_est(lambda s: KernelPCovR(mixing=0.5, n_components=2, kernel="rbf" if s == "small" else "linear", gamma=0.1), ["transform", "predict", "score"])
+    cat["feature.CUR[recompute switch*]"] = (lambda s: F.CUR(n_to_select=3, recompute_every=1 if s == "small" else 0),) + cat["feature.CUR"][1:]
+    cat["sample.FPS[initialize switch*]"] = (lambda s: Sm.FPS(n_to_select=3, initialize=0 if s == "small" else [2, 1]),) + cat["sample.FPS"][1:]
+    cat["feature.PCovCUR[mixing switch*]"] = (lambda s: F.PCovCUR(n_to_select=3, mixing=0.9 if s == "small" else 0.1),) + cat["feature.PCovCUR"][1:]
+    cat["sample.PCovFPS[threshold switch*]"] = (lambda s: Sm.PCovFPS(n_to_select=4, mixing=0.5, score_threshold=None if s == "small" else 1e-12),) + cat["sample.PCovFPS"][1:]
     cat["PCovR[space switch]"] = xy_est(lambda s: PCovR(mixing=0.5, n_components=2, space="feature" if s == "small" else "sample"), ["transform", "predict", "score"])
     cat["OrthogonalRegression[mode switch]"] = xy_est(lambda s: OrthogonalRegression(use_orthogonal_projector=(s == "small")), ["predict"])
     cat["KernelNormalizer[center switch]"] = (lambda size: KernelNormalizer(with_center=(size == "small")),) + cat["KernelNormalizer"][1:]
@@ -376,6 +392,9 @@ def est_trace(tid, name, entry, hist, dataA, dataB, layout, dataC=None):
     rec = Rec()
     data = {"A": dataA, "B": dataB, "C": dataC}
     fit_out = (lambda ret: []) if "switch" in name else None        # behaviour-only entries: see catalogue()
+    if "switch*" in name:
+        # selectors / clustering: what was selected (the labels) IS the behaviour
+        fit_out = lambda ret: [summary_of(a, getattr(ret, a)) for a in ("selected_idx_", "labels_", "cluster_centers_idx_") if hasattr(ret, a)]  # noqa
 
     base_layout = "f32" if layout == "f32" else "C"      # single-precision inputs have their own registers
 
